@@ -260,20 +260,22 @@ def all_parent_paths(root):
     return E
 
 
-ROW = re.compile(r'<tr>\n(.*?)</td>\n</tr>\n', re.S)
 LINK = re.compile(r'href="[^"?]*\?(?:[^"#]*&)?tree-([ec])=([A-Za-z0-9/\-]*)#')
 MARK = re.compile(r'\[\[(n\d+)\]\]')
 
 
 def parse_page(html):
+    """rows are located by the body markers only, a row's link is the
+    tree-[ec]=TOKEN link between the previous row's marker and its own; no
+    assumption on the table markup around them"""
     rows = []
-    for m in ROW.finditer(html):
-        row = m.group(1)
-        mk = MARK.search(row)
-        lk = LINK.search(row)
-        rows.append((mk.group(1) if mk else None,
-                     (lk.group(1), lk.group(2)) if lk else None,
-                     len(LINK.findall(row))))
+    pos = 0
+    for m in MARK.finditer(html):
+        seg = html[pos:m.start()]
+        links = LINK.findall(seg)
+        rows.append((m.group(1), tuple(links[0]) if links else None,
+                     len(links)))
+        pos = m.end()
     return rows
 
 
